@@ -85,17 +85,6 @@ impl Ctx {
     }
     /// unwraps a guarded result; on panic records it and returns None
     fn ok(&mut self, func: &str, input: impl Fn() -> String, r: Result<usize, String>) -> Option<usize> {
-        {
-            let inp = input();
-            let f = Fnv::new().s(func).s(&inp).u(match &r {
-                Ok(v) => *v as u64,
-                Err(_) => u64::MAX,
-            });
-            describe(|| format!("{}({}) -> {:?}", func, inp, r));
-            // the fast and the scalar UTF-8 path get separate shards so that C17 can compare them
-            let shard = if func == "utf8_valid_up_to" { format!("val/{}/{}", func, self.path) } else { format!("val/{}", func) };
-            self.stats.dig(&shard, f);
-        }
         match r {
             Ok(v) => Some(v),
             Err(m) => {
@@ -104,7 +93,23 @@ impl Ctx {
             }
         }
     }
-
+    fn dig(&mut self, func: &str, data_hash: Fnv, r: &Result<usize, String>, input: impl Fn() -> String) {
+        let f = data_hash.s(func).u(match r {
+            Ok(v) => *v as u64,
+            Err(_) => u64::MAX,
+        });
+        describe(|| format!("{}({}) -> {:?}", func, input(), r));
+        // the fast and the scalar UTF-8 path get separate shards so that C17 can compare them
+        if func == "utf8_valid_up_to" {
+            if self.path == "fast" {
+                self.stats.dig("val/utf8_valid_up_to/fast", f);
+            } else {
+                self.stats.dig("val/utf8_valid_up_to/scalar", f);
+            }
+        } else {
+            self.stats.dig("val/other", f);
+        }
+    }
     fn fail8(&mut self, func: &str, data: &[u8], align: usize, got: usize, want: usize) {
         let msg = format!("{}({} bytes, align {}, {}) = {} but the definition gives {}; input {}", func, data.len(), align, self.path, got, want, hex(data));
         let j = J::obj().set("engine", J::s("sweep")).set("function", J::s(func)).set("input", J::s(&hex(data))).set("align", J::i(align)).set("path", J::s(self.path)).set("detail", J::obj().set("message", J::s(&msg)));
@@ -122,6 +127,7 @@ impl Ctx {
             self.stats.nontrivial += 1;
         }
         let r = at_align(data, align, |d| guard(|| Encoding::utf8_valid_up_to(d)));
+        self.dig("utf8_valid_up_to", Fnv::new().bytes(data), &r, || hex(data));
         if let Some(got) = self.ok("utf8_valid_up_to", || hex(data), r) {
             if got != want {
                 self.fail8("utf8_valid_up_to", data, align, got, want);
@@ -132,6 +138,7 @@ impl Ctx {
         self.stats.evaluations += 1;
         let want = latin1_up_to_oracle(data);
         let r = at_align(data, align, |d| guard(|| mem::utf8_latin1_up_to(d)));
+        self.dig("utf8_latin1_up_to", Fnv::new().bytes(data), &r, || hex(data));
         if let Some(got) = self.ok("utf8_latin1_up_to", || hex(data), r) {
             if got != want {
                 self.fail8("utf8_latin1_up_to", data, align, got, want);
@@ -140,6 +147,7 @@ impl Ctx {
         if let Ok(s) = std::str::from_utf8(data) {
             self.stats.evaluations += 1;
             let r = guard(|| mem::str_latin1_up_to(s));
+            self.dig("str_latin1_up_to", Fnv::new().bytes(data), &r, || hex(data));
             if let Some(got) = self.ok("str_latin1_up_to", || hex(data), r) {
                 if got != want {
                     self.fail8("str_latin1_up_to", data, align, got, want);
@@ -151,6 +159,7 @@ impl Ctx {
         self.stats.evaluations += 2;
         let want = data.iter().position(|&b| b >= 0x80).unwrap_or(data.len());
         let r = at_align(data, align, |d| guard(|| Encoding::ascii_valid_up_to(d)));
+        self.dig("ascii_valid_up_to", Fnv::new().bytes(data), &r, || hex(data));
         if let Some(got) = self.ok("ascii_valid_up_to", || hex(data), r) {
             if got != want {
                 self.fail8("ascii_valid_up_to", data, align, got, want);
@@ -158,6 +167,7 @@ impl Ctx {
         }
         let want2 = data.iter().position(|&b| b >= 0x80 || b == 0x1B || b == 0x0E || b == 0x0F).unwrap_or(data.len());
         let r2 = at_align(data, align, |d| guard(|| Encoding::iso_2022_jp_ascii_valid_up_to(d)));
+        self.dig("iso_2022_jp_ascii_valid_up_to", Fnv::new().bytes(data), &r2, || hex(data));
         if let Some(got2) = self.ok("iso_2022_jp_ascii_valid_up_to", || hex(data), r2) {
             if got2 != want2 {
                 self.fail8("iso_2022_jp_ascii_valid_up_to", data, align, got2, want2);
@@ -174,6 +184,7 @@ impl Ctx {
             self.stats.nontrivial += 1;
         }
         let r = at_align16(data, align, |d| guard(|| mem::utf16_valid_up_to(d)));
+        self.dig("utf16_valid_up_to", Fnv::new().u16s(data), &r, || hex16(data));
         let got = match self.ok("utf16_valid_up_to", || hex16(data), r) {
             Some(g) => g,
             None => return,
@@ -323,13 +334,34 @@ pub fn run_phase(tier: Tier, path: &'static str) -> (Stats, VioSet) {
                                     d3[pos + 2] = s2;
                                     cx.utf16(&d3, 0);
                                 }
+                                // three and four surrogates in a row, and a pair, spaces, a surrogate
+                                if pos + 2 < *len && (filler == 0x20 || filler == 0x41) {
+                                    for &s3 in &sur {
+                                        let mut d4 = d.clone();
+                                        d4[pos + 1] = s2;
+                                        d4[pos + 2] = s3;
+                                        cx.utf16(&d4, pos % 8);
+                                        if pos + 3 < *len {
+                                            for &s4 in &[0xDC00u16, 0xD800] {
+                                                let mut d5 = d4.clone();
+                                                d5[pos + 3] = s4;
+                                                cx.utf16(&d5, pos % 8);
+                                            }
+                                            let mut d6 = d.clone();
+                                            d6[pos + 1] = s2;
+                                            d6[pos + 2] = 0x20;
+                                            d6[pos + 3] = s3;
+                                            cx.utf16(&d6, pos % 8);
+                                        }
+                                    }
+                                }
                             }
                         }
                     }
                 }
             }
             Job::Latin1(len) => {
-                let pats: [&[u8]; 9] = [&[0xC2, 0x80], &[0xC3, 0xBF], &[0xC4, 0x80], &[0xE0, 0xA0, 0x80], &[0xC2], &[0xC2, 0x41], &[0x80], &[0xFF], &[0xF0, 0x9F, 0x98, 0x80]];
+                let pats: [&[u8]; 15] = [&[0xC2, 0x80], &[0xC3, 0xBF], &[0xC4, 0x80], &[0xE0, 0xA0, 0x80], &[0xC2], &[0xC2, 0x41], &[0x80], &[0xFF], &[0xF0, 0x9F, 0x98, 0x80], &[0x80, 0xA6], &[0xBF, 0x80], &[0xC0, 0xAF], &[0xC1, 0xBF], &[0xC3], &[0xC3, 0xC3, 0xA9]];
                 for fk in 0..2 {
                     for pos in 0..=*len {
                         for pat in pats.iter() {
